@@ -268,6 +268,18 @@ func (e *c03Eng) resolve(fr *c03Frame, v ssa.Value) (ssa.Value, *c03Frame) {
 					continue
 				}
 			}
+			if fv, ok := x.X.(*ssa.FreeVar); ok {
+				// a variable of the enclosing activation that is assigned once and only read by the function
+				// literal entered here (a parameter captured by a predicate closure)
+				if b, bfr, ok := c03n4Binding(fr, fv); ok {
+					if al, isA := b.(*ssa.Alloc); isA {
+						if st := c03n4OnlyStore(al); st != nil {
+							v, fr = st.Val, bfr
+							continue
+						}
+					}
+				}
+			}
 			return v, fr
 		case *ssa.Field:
 			// a field of a struct value built locally (a parameter object, possibly handed on by value)
@@ -1528,6 +1540,8 @@ type c03Spec struct {
 	typV             ssa.Value // the type criterion as a value (for constant tests)
 	typFr            *c03Frame
 	call             *ssa.Call
+	cfr              *c03Frame // activation the filterMsgs call is made in
+	sem              bool      // criteria read off the filter's body (n4SemSpec), not off a positional call
 }
 
 const (
@@ -1538,6 +1552,12 @@ const (
 
 // pointee spells the value a pointer criterion points to ("" = nil pointer, i.e. criterion absent).
 func (e *c03Eng) pointee(fr *c03Frame, p ssa.Value, d int) (string, bool) {
+	if _, isPtr := p.Type().Underlying().(*types.Pointer); !isPtr {
+		// a criterion handed over by value: it cannot be absent; whether the filter applies it for every
+		// value is decided on the filter's body (c03n4_filter.go)
+		t := e.term(fr, p)
+		return t, t != ""
+	}
 	p, fr = e.resolve(fr, p)
 	if an.IsNilConst(p) {
 		return "", true
@@ -1606,9 +1626,14 @@ func (e *c03Eng) filter(fr *c03Frame, v ssa.Value, d int) (c03Spec, int) {
 	if f != nil && c03Strip(an.FuncName(f)) == c03P+".filterMsgs" {
 		a := cc.Args
 		if len(a) != 6 || idx != 0 {
+			if c03n4SemFallback && idx == 0 {
+				if sp, st, ok := e.n4SemSpec(fr, call); ok {
+					return sp, st
+				}
+			}
 			return c03Spec{}, c03SpecUnknown
 		}
-		sp := c03Spec{msgs: e.term(fr, a[0]), typ: e.term(fr, a[1]), round: e.term(fr, a[2]), call: call}
+		sp := c03Spec{msgs: e.term(fr, a[0]), typ: e.term(fr, a[1]), round: e.term(fr, a[2]), call: call, cfr: fr}
 		sp.typV, sp.typFr = e.resolve(fr, a[1])
 		var ok1, ok2, ok3 bool
 		sp.value, ok1 = e.pointee(fr, a[3], 0)
@@ -1651,16 +1676,22 @@ func (e *c03Eng) filter(fr *c03Frame, v ssa.Value, d int) (c03Spec, int) {
 			return c03Spec{}, c03SpecUnknown
 		}
 	}
+	if n > 0 && worst == c03SpecOK {
+		return *got, c03SpecOK
+	}
+	// not a wrapper of a known filter call: is it a filter itself (whatever its name and parameter list)?
+	if c03n4SemFallback && idx == 0 {
+		if sp, st, ok := e.n4SemSpec(fr, call); ok {
+			return sp, st
+		}
+	}
 	if n == 0 {
 		return c03Spec{}, c03SpecUnknown
 	}
-	if worst != c03SpecOK {
-		if got != nil {
-			return c03Spec{}, c03SpecUnknown // some returns filter, some do not
-		}
-		return c03Spec{}, worst
+	if got != nil {
+		return c03Spec{}, c03SpecUnknown // some returns filter, some do not
 	}
-	return *got, c03SpecOK
+	return c03Spec{}, worst
 }
 
 func (s c03Spec) key() string {
